@@ -176,6 +176,14 @@ def run_unit(unit, threads=4, extra_args=None, rlimit=None, rlimit_scale=1.0):
                 loc = f"{prim[0]['file_name']}:{prim[0]['line_start']}" if prim else ""
                 ur.undecided.append(f"{unit}: verifier rejected the file (not a proof failure): {norm(msg, 200)} {loc}")
             continue
+        if prim and not prim[0]["file_name"].endswith(gname):
+            # (additive, unit apiglue) a proof failure whose primary span lies inside a std macro expansion (`unimplemented!()`, `panic!`,
+            # `unreachable!()` in the real text): name it by the macro call site in the generated file instead of giving up
+            _s = prim[0]
+            while _s is not None and not _s["file_name"].endswith(gname):
+                _s = (_s.get("expansion") or {}).get("span")
+            if _s is not None:
+                prim = [_s] + prim[1:]
         if not prim or not prim[0]["file_name"].endswith(gname):
             ur.undecided.append(f"{unit}: diagnostic outside generated file: {norm(msg,200)}")
             continue
